@@ -8,6 +8,8 @@
 //	type   declared type x runtime value kind x boundary
 //	inst   abstract/interface kinds x `new` forms
 //	chain  which of 2 abstract methods are implemented where in a 3-level chain
+//	oblig  by which route (interface extends-DAG, implements at C/P/G, abstract parent/grandparent,
+//	       instance/static) an abstract method reaches a concrete class (oblig.go)
 //
 // One script per (shape, site) / (boundary, type) prints one marker per cell, every cell inside
 // its own try/catch(Throwable). Every failing cell is re-run alone (isolation), every denial is
@@ -33,6 +35,9 @@ var prefixes = []string{"Vq", "Zk", "Mw", "Ty", "Hx"}
 // bareNames is the pseudo-seed of the concretisation with the bare role names (one-letter
 // class names A, I, D, S ...), always run next to the seed-selected prefix.
 const bareNames = int64(-1)
+
+// obligShard: configurations of the oblig family per shard.
+const obligShard = 1024
 
 func pfxOf(seed int64) string {
 	if seed == bareNames {
@@ -96,6 +101,7 @@ type shardArg struct {
 	A      int    `json:"a"`
 	B      int    `json:"b"`
 	Seed   int64  `json:"seed"`
+	Quick  bool   `json:"quick,omitempty"` // oblig: which bound of the family
 }
 
 // replay/case description, enough to regenerate the single cell
@@ -117,6 +123,7 @@ type caseDesc struct {
 	IKind  string   `json:"inst_kind,omitempty"`
 	IPath  string   `json:"inst_path,omitempty"`
 	Chain  *chainCfg `json:"chain,omitempty"`
+	Oblig  *obCfg    `json:"oblig,omitempty"`
 	Cls    string   `json:"cls,omitempty"`
 	Script string   `json:"script,omitempty"`
 	Expect string   `json:"expect,omitempty"`
@@ -886,7 +893,7 @@ func main() {
 		return
 	}
 	if pool.IsWorker() {
-		pool.Serve(map[string]pool.Handler{"vis": visWorker, "type": typeWorker, "inst": instWorker, "chain": chainWorker})
+		pool.Serve(map[string]pool.Handler{"vis": visWorker, "type": typeWorker, "inst": instWorker, "chain": chainWorker, "oblig": obligWorker})
 	}
 	c := ev.New("C07")
 	defer runner.Cleanup()
@@ -912,20 +919,21 @@ func main() {
 	for _, sd := range seeds {
 		for si := range shapes {
 			for i := range sitesOf(&shapes[si]) {
-				shards = append(shards, pool.Shard{Kind: "vis", Arg: shardArg{"vis", si, i, sd}})
+				shards = append(shards, pool.Shard{Kind: "vis", Arg: shardArg{Family: "vis", A: si, B: i, Seed: sd}})
 			}
 		}
 		for bi := range boundaries {
-			shards = append(shards, pool.Shard{Kind: "type", Arg: shardArg{"type", bi, 0, sd}})
+			shards = append(shards, pool.Shard{Kind: "type", Arg: shardArg{Family: "type", A: bi, Seed: sd}})
 		}
 		for ki := range instKinds {
-			shards = append(shards, pool.Shard{Kind: "inst", Arg: shardArg{"inst", ki, 0, sd}})
+			shards = append(shards, pool.Shard{Kind: "inst", Arg: shardArg{Family: "inst", A: ki, Seed: sd}})
 		}
 		n := len(allChainCfgs())
 		for i := 0; i < n; i += 16 {
-			shards = append(shards, pool.Shard{Kind: "chain", Arg: shardArg{"chain", i, i + 16, sd}})
+			shards = append(shards, pool.Shard{Kind: "chain", Arg: shardArg{Family: "chain", A: i, B: i + 16, Seed: sd}})
 		}
 	}
+	shards = append(shards, obligShards(c.Quick(), seeds)...)
 	var cells, runs int64
 	outcomes := map[string]int64{}
 	counters := map[string]int64{}
@@ -986,6 +994,8 @@ func main() {
 	c.Set("value_kinds", len(valKinds))
 	c.Set("boundaries", len(boundaries))
 	c.Set("chain_configs", len(allChainCfgs()))
+	c.Set("oblig_configs", len(allObligCfgs(c.Quick())))
+	c.Set("oblig_bounds(depth,interfaces)", obligBounds(c.Quick()))
 	c.Set("name_prefixes", len(seeds))
 	c.Assume("visibility rule = lexical class of the accessing code vs. declaring class; public members are only controls (a path that cannot reach the public member at a site makes no claim about allowed protected/private access there)")
 	c.Assume("protected member reached from ancestor-class code is left open (statement: denied, PHP: allowed); isset() is held only to the no-crash / no-effect clauses")
@@ -995,6 +1005,9 @@ func main() {
 	}
 	if outcomes["deny/read/denied/"] == 0 || outcomes["allow/read/ok/"] == 0 {
 		c.HarnessError("vacuous: the visibility matrix never produced both a correct denial and a correct allowed read")
+	}
+	if outcomes["oblig/deny/"] == 0 || outcomes["oblig/ok/"] == 0 {
+		c.HarnessError("vacuous: the obligation-route family never produced both a correct rejection and a correct instantiation")
 	}
 	c.Finish(cells, runs, cells, "every cell of the visibility, declared-type, instantiation and abstract-chain matrices, judged against an independent rule table; failing cells re-run alone, denials re-run bare")
 }
@@ -1083,6 +1096,13 @@ func replay(c *ev.Check) {
 		var script string
 		cl, det, script = evalChain(st, *cs.Chain, idx, cs.Seed)
 		fmt.Println(script)
+	case "oblig":
+		var script string
+		cl, det, script = evalOblig(st, *cs.Oblig, cs.Seed, map[string]bool{})
+		fmt.Println(script)
+		if cl != "" && cl != "crash" {
+			fmt.Println("key now:", obligKey(*cs.Oblig, cl))
+		}
 	}
 	fmt.Printf("clause=%q %s\n", cl, det)
 	if cl != "" {
